@@ -1,3 +1,4 @@
+import AquaVerif.Proofs.CatalogueCfg
 import AquaVerif.Proofs.RunClosed
 import AquaVerif.Proofs.Run
 import AquaVerif.Proofs.WaterDay
@@ -226,5 +227,24 @@ theorem run_closes_closed {F : Fn α} {T : TrigFn α} {cfg : RunCfg α} {s : Run
           + d.r.water.crAdded + d.r.flux.gwIn - d.r.flux.deepPerc - d.r.flux.es - d.r.flux.tr :=
   Aqua.run_closes_closed hC hr hR
 end closed
+
+/-! ### run level, catalogue configurations (`Proofs/Catalogue*.lean`): every hypothesis is membership in a table
+regenerated from the sources, a fact about initialisation outputs, or a premise on the weather -/
+
+section catalogueRun
+open Aqua.Response Aqua.HarvestIndexReal
+
+/-- **Run level, catalogue configurations.** The daily soil-water balance closes on every simulated
+day of every run of every catalogue configuration (`CatCfg`: crops of the generated crop table,
+profile and initial water content from the profile builder / `initWC`, parameter ranges) — real
+`exp`/`log`/`pow`; with a water table, `ResidualW` (capillary rise did not overshoot saturation). -/
+theorem catalogue_run_closes {cfg : RunCfg ℝ} {s : RunState ℝ} (h : CatCfg cfg)
+    (hr : RunReach realFn realTrig cfg s) (hR : ∀ d ∈ s.daysRev, ResidualW d) :
+    ∀ d ∈ s.daysRev,
+      storage d.r.state.cells + d.r.state.pond =
+        storage d.st.cells + d.st.pond + d.r.flux.infl + d.r.water.preIrr + d.r.water.irrNet
+          + d.r.water.crAdded + d.r.flux.gwIn - d.r.flux.deepPerc - d.r.flux.es - d.r.flux.tr :=
+  Aqua.catalogue_run_closes h hr hR
+end catalogueRun
 
 end Aqua.C01
